@@ -1,6 +1,7 @@
 #!/bin/bash
 # regress.sh: re-run the quick tier against every kept seeded change (expected: exit 1)
-# and every neutral patch (expected: exit 0). Prints one line each; exit 1 if any differs.
+# and every neutral patch (expected: exit 0; neutral/<id>/meta.json may name another property
+# whose check rightly objects). Prints one line each; exit 1 if any differs.
 # REGRESS_PAR jobs run side by side (default 4), each with DSIM_WORKERS workers (default 4).
 cd "$(dirname "$0")/.." || exit 2
 V="$(pwd)"
@@ -11,6 +12,14 @@ add() { echo "$1 $2 $3" >> "$jobs"; } # patch prop expected
 for d in seeded/*/; do
   id=$(basename "$d"); prop=${id%%-*}
   add "$V/${d}patch.diff" "$prop" 1
+done
+# independent property-preserving changes (wave 9): meta.json says which checks must stay quiet (0)
+# and which other property's check rightly objects (1)
+for d in neutral/*/; do
+  [ -f "${d}meta.json" ] || continue
+  python3 -c 'import json,sys; [print(k,v) for k,v in json.load(open(sys.argv[1]))["expect"].items()]' "${d}meta.json" | while read prop want; do
+    add "$V/${d}patch.diff" "$prop" "$want"
+  done
 done
 for p in mutants/*.patch; do
   n=$(basename "$p" .patch)
